@@ -310,6 +310,30 @@ func genC08(r *rand.Rand, tier string, st *Stats) []Case {
 	for _, s := range c08Seeds {
 		addCase(&cases, seen, st, "seed", s)
 	}
+	// process loops whose body moves TYPES around between variables (swap / rotate through a temporary, retype a
+	// variable from its own value, assign in one branch only): whatever a checker does with a loop — one pass, several,
+	// a fixed point — it has to come back
+	vals := map[string]string{"n": "1", "s": "'x'", "b": "true"}
+	for _, ctx := range []string{"transform", "predicate"} {
+		for _, ty := range [][]string{{"n", "s"}, {"s", "b"}, {"n", "b"}, {"n", "s", "b"}, {"n", "n"}} {
+			init, rot := "", "set t to v0 "
+			for i, t := range ty {
+				init += fmt.Sprintf("set v%d to %s ", i, vals[t])
+				if i > 0 {
+					rot += fmt.Sprintf("set v%d to v%d ", i-1, i)
+				}
+			}
+			rot += fmt.Sprintf("set v%d to t ", len(ty)-1)
+			for _, body := range []string{rot + "break", rot + "if v0 == v0 then break end", "if true then " + rot + "end break",
+				"set v0 to v0 == v0 break", "set v0 to v0 + 1 set v0 to v0 + 'a' break", "loop " + rot + "break end break"} {
+				src := "set f to transform " + init + "loop " + body + " end return 'r' end\nreplace all 'a' with f"
+				if ctx == "predicate" {
+					src = "set p to pattern 'a' begin " + init + "loop " + body + " end return true end\nfind all p"
+				}
+				addCase(&cases, seen, st, "type-permuting-loop", src)
+			}
+		}
+	}
 	nValid := sizes(tier, 60, 400)
 	for i := 0; i < nValid; i++ {
 		p := genValid(r)
